@@ -216,7 +216,8 @@ class EvalNode(ConfigScalar(str)):
                             new_bytecode.append(code.co_code[i+2:i+4])
                             i += 2
 
-                    new_bytecode.append(dis.opmap['LOAD_ATTR'].to_bytes(1, 'little') + arg.to_bytes(1, 'little'))
+                    attr_arg = (arg << 1) if python_is_at_least(3, 12) else arg # since python 3.12 the lowest bit of LOAD_ATTR's operand is a "method call" flag
+                    new_bytecode.append(dis.opmap['LOAD_ATTR'].to_bytes(1, 'little') + attr_arg.to_bytes(1, 'little'))
                     if python_is_at_least(3, 11):
                         caches = dis._inline_cache_entries[dis.opmap['LOAD_ATTR']]
                         for _ in range(caches):
